@@ -76,6 +76,18 @@ class ProblemModel:
     assigned_outside: dict
 
 
+def none_reset_only(P, attr):
+    """{attr} if every write of P.<attr> outside __init__ assigns None (then it is a cache being dropped), else {}."""
+    vals = []
+    for m in P.methods.values():
+        if m.name == "__init__":
+            continue
+        for a, n in attr_writes(m.node, {"self"}):
+            if a == attr:
+                vals.append(isinstance(n, ast.Assign) and isinstance(n.value, ast.Constant) and n.value.value is None)
+    return {attr} if vals and all(vals) else set()
+
+
 def problem_model(prog, rep=None) -> ProblemModel:
     """Model fields, cache fields and the invalidator of class Problem, derived from the source."""
     class _R:
@@ -128,14 +140,35 @@ def problem_model(prog, rep=None) -> ProblemModel:
             assigned_outside.setdefault(a, []).append((fi, n))
             if a in tested:
                 memo.setdefault(a, []).append((fi, n))
-    # model fields: written by a public, non-property method of Problem (the user-facing edit API);
-    # everything else that is assigned on a Problem instance outside __init__ is derived state (a cache).
+    # model fields: written by a public, non-property method of Problem (the user-facing edit API), directly or
+    # through private helpers it calls on self; everything else that is assigned on a Problem instance outside
+    # __init__ is derived state (a cache).
+    def self_callees(fi_, seen=None):
+        seen = seen or set()
+        out = []
+        for n in walk_local(fi_.node, include_self=False):
+            if isinstance(n, ast.Call) and isinstance(n.func, ast.Attribute) and dotted(n.func.value) == "self" and n.func.attr in P.methods and n.func.attr not in seen:
+                m = P.methods[n.func.attr]
+                if m is inval:
+                    continue
+                seen.add(n.func.attr)
+                out.append(m)
+                out += self_callees(m, seen)
+        return out
+
     model_attrs = set()
-    for a, sites in assigned_outside.items():
-        for fi, n in sites:
-            decos = [ast.unparse(d) for d in fi.node.decorator_list]
-            if fi.cls is P and not fi.name.startswith("_") and "property" not in decos:
-                model_attrs.add(a)
+    for m in P.methods.values():
+        decos = [ast.unparse(d) for d in m.node.decorator_list]
+        if m.name.startswith("_") or "property" in decos or m is init:
+            continue
+        for g in [m] + self_callees(m):
+            for a, n in attr_writes(g.node, {"self"}):
+                if isinstance(n, (ast.Assign, ast.AugAssign, ast.AnnAssign)) and isinstance(getattr(n, "value", None), ast.Constant) and n.value.value is None:
+                    continue  # resetting a cache to None is not a model edit
+                if a in init_attrs and not (a in none_reset_only(P, a)):
+                    model_attrs.add(a)
+    # attributes that are only ever tested against None and memoised are caches even if a public method assigns them
+    model_attrs -= {a for a in model_attrs if a in memo and a in reset}
     cache_attrs = (set(assigned_outside) | set(memo) | set(reset)) - model_attrs
     rep.saw("model fields", sorted(model_attrs))
     rep.saw("cache fields", sorted(cache_attrs))
